@@ -74,6 +74,8 @@ var eventAlphabet = []ev{
 	{K: "cancelput", I: 0}, {K: "cancelput", I: 1}, {K: "startput", Key: 1},
 	// expiry: a write with an expiry 30 virtual minutes ahead, and the clock moving one hour
 	{K: "putexp", Key: 1}, {K: "tick"},
+	// a write whose record is already expired: the key is absent afterwards, parked waiters must be told
+	{K: "putdead", Key: 1},
 }
 
 type swaiter struct {
@@ -288,6 +290,23 @@ func runScript(sc script, visit func(string)) *vio {
 			}
 			mutated(k)
 			expAt[k] = at
+		case "putdead":
+			past := time.Now().Add(-time.Minute)
+			delete(expAt, k)
+			if _, err := s.Put(bg, kvs.Record{Key: k, Value: []byte("d"), ExpiresAt: &past}); err != nil {
+				cleanup()
+				return &vio{"inmem/Put/error", err.Error()}
+			}
+			// logically the key is absent now; the store is not asked (a Get would purge and notify)
+			if v, ok := cur[k]; ok {
+				stale[k] = v
+			}
+			delete(cur, k)
+			for _, w := range ws {
+				if w.key == k && w.expect == "parked" {
+					w.expect = "ErrNotExist"
+				}
+			}
 		case "tick":
 			// the clock passes every pending expiry; the store is NOT touched (a Get would purge the record and
 			// notify on the waiters' behalf): whoever is parked on an expired key must come back by itself
@@ -526,7 +545,11 @@ func freeRound(backend string, s kvs.Storage, seed int64, run *report.Run) []frF
 				}
 				ctx, cancel := context.WithCancel(roundCtx)
 				var cancelAt atomic.Int64
-				if rng.Intn(3) == 0 {
+				if rng.Intn(4) == 0 {
+					// a context with a deadline instead of an explicit cancel
+					cancel()
+					ctx, cancel = context.WithTimeout(roundCtx, time.Duration(5+rng.Intn(120))*time.Millisecond)
+				} else if rng.Intn(3) == 0 {
 					d := time.Duration(rng.Intn(300)) * time.Microsecond
 					go func() {
 						time.Sleep(d)
@@ -541,7 +564,11 @@ func freeRound(backend string, s kvs.Storage, seed int64, run *report.Run) []frF
 				if ret-c > int64(50*time.Microsecond) {
 					parkedTotal.Add(1)
 				}
-				if e == hist.ECtx {
+				if e == hist.ECtx && ctx.Err() == nil {
+					report(frFinding{backend + "/wait/context-error-while-context-alive", fmt.Sprintf("waiter on %s returned %v although its context is not done", k, err), frWitness{Backend: backend, Seed: seed}})
+				} else if e == hist.ECtx && cancelAt.Load() == 0 && roundCancelAt.Load() == 0 {
+					// ended by its own deadline: legal (the context IS done)
+				} else if e == hist.ECtx {
 					ca := cancelAt.Load()
 					if rc := roundCancelAt.Load(); rc != 0 && (ca == 0 || rc < ca) {
 						ca = rc
@@ -842,6 +869,49 @@ func longPark(park time.Duration) (sig, what string, stall time.Duration, inconc
 	return "", "", 0, ""
 }
 
+// deadlineWait: waiters whose contexts carry deadlines are parked on a quiet key. Whenever such a waiter
+// returns the context's error, the context must be done at that moment (decided by ctx.Err(), not by a clock);
+// afterwards a change wakes a waiter with a long deadline.
+func deadlineWait(backend string, s kvs.Storage, deadlines []time.Duration) (sig, what string, inconclusive string) {
+	bg := context.Background()
+	r0, err := s.Put(bg, kvs.Record{Key: "dl", Value: []byte("0")})
+	if err != nil {
+		return "", "", backend + " Put: " + err.Error()
+	}
+	type res struct {
+		d     time.Duration
+		err   error
+		alive bool
+		took  time.Duration
+	}
+	out := make(chan res, len(deadlines)+1)
+	for _, d := range deadlines {
+		go func(d time.Duration) {
+			ctx, cancel := context.WithTimeout(bg, d)
+			defer cancel()
+			t0 := time.Now()
+			e := s.WaitForVersionChange(ctx, "dl", r0.Version)
+			out <- res{d, e, ctx.Err() == nil, time.Since(t0)}
+		}(d)
+	}
+	for range deadlines {
+		select {
+		case r := <-out:
+			switch {
+			case r.err == nil:
+				return backend + "/wait/returned-without-change", fmt.Sprintf("a waiter with a %v deadline on the current version returned nil although nothing changed", r.d), ""
+			case hist.Classify(r.err) != hist.ECtx:
+				return backend + "/wait/deadline-wrong-result", fmt.Sprintf("a waiter with a %v deadline returned %v", r.d, r.err), ""
+			case r.alive:
+				return backend + "/wait/context-error-while-context-alive", fmt.Sprintf("a waiter with a %v deadline on a quiet key returned %v after %v although its context was not done at that moment", r.d, r.err, r.took), ""
+			}
+		case <-time.After(120 * time.Second):
+			return "", "", "deadline waiters did not return in 120 s"
+		}
+	}
+	return "", "", ""
+}
+
 const burstsPerRound = 60
 
 func TestCheck(t *testing.T) {
@@ -853,7 +923,7 @@ func TestCheck(t *testing.T) {
 		}
 		run.Finish(t)
 	})
-	run.Rule("scripted: every legal script to the depth bound over {start waiter (key1 cur/stale/unknown, key2 cur; <=3 alive), cancel waiter i, cancel+Put+newcomer without quiescence in between, start+Put without quiescence, Put k1/k2, PutMany k1 / k1+k2, CAS ok, CAS conflict, Delete k1/k2, Create, Put with an expiry, clock +1 h (nobody touches the store)} from 2 initial states, in a synctest bubble; after EVERY event quiescence, then each waiter must be exactly parked / nil / ErrNotExist / ctx error per model and the waiter table must equal the parked set; free-running: 3 writers + 6 waiters + cancellers on 2 keys per round, waiter returns checked by porcupine as read-like operations, final mutation must release all; burst rounds: 4-16 waiters on the current version start together with one mutation and must all return; Redis long-park: a waiter parked 3.2 s (6.5 s thorough) must notice the change within 1 s. distinct = distinct (event kind, parked-waiter multiset, number of present keys) classes observed at quiescent points + distinct free-running rounds")
+	run.Rule("scripted: every legal script to the depth bound over {start waiter (key1 cur/stale/unknown, key2 cur; <=3 alive), cancel waiter i, cancel+Put+newcomer without quiescence in between, start+Put without quiescence, Put k1/k2, PutMany k1 / k1+k2, CAS ok, CAS conflict, Delete k1/k2, Create, Put with an expiry, Put of an already expired record, clock +1 h (nobody touches the store)} from 2 initial states, in a synctest bubble; after EVERY event quiescence, then each waiter must be exactly parked / nil / ErrNotExist / ctx error per model and the waiter table must equal the parked set; free-running: 3 writers + 6 waiters + cancellers on 2 keys per round, waiter returns checked by porcupine as read-like operations, final mutation must release all; burst rounds: 4-16 waiters on the current version start together with one mutation and must all return; Redis long-park: a waiter parked 3.2 s (6.5 s thorough) must notice the change within 1 s. distinct = distinct (event kind, parked-waiter multiset, number of present keys) classes observed at quiescent points + distinct free-running rounds")
 	run.Assume("scripted part: virtual time that only moves at the explicit clock event")
 	run.Assume("free-running 'never misses' uses a 20 s watchdog against a healthy release time of microseconds (inmem) / <=100 ms (Redis polling)")
 
@@ -900,6 +970,39 @@ func TestCheck(t *testing.T) {
 		}(park)
 	}
 	defer lpwg.Wait()
+	for i := 0; i < run.Pick(2, 12); i++ {
+		for _, backend := range []string{"inmem", "redis"} {
+			lpwg.Add(1)
+			go func(i int, backend string) {
+				defer lpwg.Done()
+				var s kvs.Storage = inmem.New()
+				if backend == "redis" {
+					rs, err := kvmodel.NewRedisServer()
+					if err != nil {
+						run.Inconclusive("miniredis: " + err.Error())
+						return
+					}
+					defer rs.Close()
+					s = rs.S
+				}
+				rng := rand.New(rand.NewSource(run.Seed()*977 + int64(i)))
+				var ds []time.Duration
+				for j := 0; j < 6; j++ {
+					ds = append(ds, time.Duration(3+rng.Intn(400))*time.Millisecond)
+				}
+				sig, what, inc := deadlineWait(backend, s, ds)
+				if inc != "" {
+					run.Inconclusive(inc)
+					return
+				}
+				run.Eval(len(ds))
+				run.Add("deadline_waiters_"+backend, int64(len(ds)))
+				if sig != "" {
+					run.Violation(sig, what, map[string]any{"scenario": "deadline-wait", "backend": backend, "deadlines": fmt.Sprint(ds)})
+				}
+			}(i, backend)
+		}
+	}
 	t.Run("free", func(t *testing.T) {
 		for _, backend := range []string{"inmem", "redis"} {
 			n := run.Pick(400, 20000)
